@@ -258,7 +258,10 @@ def decide(rep, prog, cx=None):
     rl = [l for l in I.loop_info if l.startswith('session_table_remove#')]
     for st, v in outs:
         ac = cx.tfield(st, 'all_complete')
-        rep.check(ac in (ZERO, ONE), 'R16.remove', 'recompute', "remove does not end with a recomputed 'all complete' flag (%s)" % short(ac), function='session_table_remove', file=fnf)
+        # (a flag the status function computed from its own scan - `pending == 0` - is a recomputed flag; whether that scan is
+        #  right is R16.status)
+        by_status = ac[0] == 'eq' and 'hv:session_table_update_complete_status#' in short(ac)
+        rep.check(ac in (ZERO, ONE) or by_status, 'R16.remove', 'recompute', "remove does not end with a recomputed 'all complete' flag (%s)" % short(ac), function='session_table_remove', file=fnf)
     ncleared = 0
     for l in rl:
         k = ('sym', 'iter:' + l, 0, INF)
@@ -315,45 +318,7 @@ def decide(rep, prog, cx=None):
                   function='session_table_remove', file=fnf)
     rep.check(ncleared > 0, 'R16.remove', 'paths', 'remove never invalidates an entry', function='session_table_remove', file=fnf)
 
-    # ---------------- clear
-    I, outs = cx.run('session_table_clear', lambda st: [Val(tp, T0)])
-    ubs(I, 'R16.clear')
-    for st, v in outs:
-        T = st.objs['T']
-        bs = mem.load_bytes(st, T, C(cx.eoff), cx.cap * cx.esz)
-        rep.check(all(st.canon(b) == ZERO for b in bs), 'R16.clear', 'entries', 'clear leaves %d entry bytes non-zero' % sum(1 for b in bs if st.canon(b) != ZERO),
-                  function='session_table_clear', file=fnf)
-        rep.check(cx.tfield(st, 'count') == ZERO, 'R16.clear', 'count', 'clear leaves count %s' % short(cx.tfield(st, 'count')), function='session_table_clear', file=fnf)
-        rep.check(cx.tfield(st, 'all_complete') == ONE, 'R16.clear', 'flag', "clear leaves 'all complete' = %s" % short(cx.tfield(st, 'all_complete')), function='session_table_clear', file=fnf)
-
-    # ---------------- create: the table a session starts from is the empty table, whatever the allocator returned
-    I, outs = cx.run('session_table_create', lambda st: [])
-    ubs(I, 'R16.create')
-    nmade = 0
-    for st, v in outs:
-        t = st.canon(v.t)
-        if t == ZERO:
-            rep.check(any(e[0] == 'malloc-failed' for e in st.trace), 'R16.create', 'null', 'create returns NULL without an allocation failure',
-                      function='session_table_create', file=fnf)
-            continue
-        if t[0] != 'ptr' or t[1] not in st.objs or not st.objs[t[1]].heap:
-            rep.fail('R16.create', 'ret', 'create returns %s, not a freshly allocated table' % short(t), function='session_table_create', file=fnf)
-            continue
-        nmade += 1
-        o = st.objs[t[1]]
-        rep.check(st.prove_le(C(cx.trec.size), o.size), 'R16.create', 'size', 'create allocates %s bytes for a table of %d' % (short(o.size), cx.trec.size),
-                  function='session_table_create', file=fnf)
-        # (only the `valid` flags decide what the table holds: every reader tests them first)
-        vs = [st.canon(mem.load_byte(st, o, (), cx.eoff + i * cx.esz + cx.foff('valid'))) for i in range(cx.cap)]
-        bad = [i for i, b in enumerate(vs) if b != ZERO]
-        rep.check(not bad, 'R16.create', 'entries', 'a freshly created table is not the empty table: the valid flag of %d slot(s) (first: slot %d) keeps what the allocator returned: '
-                  'ghost sessions are found, counted out of step, refreshed instead of created' % (len(bad), bad[0] if bad else 0),
-                  function='session_table_create', file=fnf, sample={'fresh_table_slots_invalid': len(vs)})
-        cnt = st.canon(mem.load_scalar(st, o, C(cx.toff('count')), cx.ty('unsigned char')))
-        flg = st.canon(mem.load_scalar(st, o, C(cx.toff('all_complete')), cx.ty('unsigned char')))
-        rep.check(cnt == ZERO, 'R16.create', 'count', 'a freshly created table has count %s' % short(cnt), function='session_table_create', file=fnf)
-        rep.check(flg == ONE, 'R16.create', 'flag', "a freshly created table has 'all complete' = %s" % short(flg), function='session_table_create', file=fnf)
-    rep.check(nmade > 0, 'R16.create', 'paths', 'create never returns a table', function='session_table_create', file=fnf)
+    clear_and_create(rep, cx)
 
     # ---------------- update_complete_status
     I, outs = cx.run('session_table_update_complete_status', lambda st: [Val(tp, T0)], no_merge=True)
@@ -632,6 +597,58 @@ def add_concrete(cx):
                     bad.append('creates or returns slot %d (count %s)' % (i, short(cx.tfield(st, 'count'))))
         out.append((not bad, 'unrolled|known|slot%d' % j, 'with slot %d valid and holding the key, add does not simply refresh a session of that key: %s' % (j, '; '.join(bad[:3]))))
     return out
+
+
+def clear_and_create(rep, cx):
+    """R16.clear and R16.create (also decided on their own under C09: the table after a Reset equals a fresh one)."""
+    fnf = 'lltdResponder/lltdAutomata.c'
+    tp = cx.ty('session_table *')
+    T0 = ('ptr', 'T', ZERO)
+
+    def ubs(I, rule):
+        for ob in I.obs.values():
+            if not ob.ok:
+                rep.fail(rule, '%s|%s' % (ob.fn, ob.kind), ob.msg, node=ob.node, function=ob.fn)
+    # ---------------- clear
+    I, outs = cx.run('session_table_clear', lambda st: [Val(tp, T0)])
+    ubs(I, 'R16.clear')
+    for st, v in outs:
+        T = st.objs['T']
+        bs = mem.load_bytes(st, T, C(cx.eoff), cx.cap * cx.esz)
+        rep.check(all(st.canon(b) == ZERO for b in bs), 'R16.clear', 'entries', 'clear leaves %d entry bytes non-zero' % sum(1 for b in bs if st.canon(b) != ZERO),
+                  function='session_table_clear', file=fnf)
+        rep.check(cx.tfield(st, 'count') == ZERO, 'R16.clear', 'count', 'clear leaves count %s' % short(cx.tfield(st, 'count')), function='session_table_clear', file=fnf)
+        rep.check(cx.tfield(st, 'all_complete') == ONE, 'R16.clear', 'flag', "clear leaves 'all complete' = %s" % short(cx.tfield(st, 'all_complete')), function='session_table_clear', file=fnf)
+
+    # ---------------- create: the table a session starts from is the empty table, whatever the allocator returned
+    I, outs = cx.run('session_table_create', lambda st: [])
+    ubs(I, 'R16.create')
+    nmade = 0
+    for st, v in outs:
+        t = st.canon(v.t)
+        if t == ZERO:
+            rep.check(any(e[0] == 'malloc-failed' for e in st.trace), 'R16.create', 'null', 'create returns NULL without an allocation failure',
+                      function='session_table_create', file=fnf)
+            continue
+        if t[0] != 'ptr' or t[1] not in st.objs or not st.objs[t[1]].heap:
+            rep.fail('R16.create', 'ret', 'create returns %s, not a freshly allocated table' % short(t), function='session_table_create', file=fnf)
+            continue
+        nmade += 1
+        o = st.objs[t[1]]
+        rep.check(st.prove_le(C(cx.trec.size), o.size), 'R16.create', 'size', 'create allocates %s bytes for a table of %d' % (short(o.size), cx.trec.size),
+                  function='session_table_create', file=fnf)
+        # (only the `valid` flags decide what the table holds: every reader tests them first)
+        vs = [st.canon(mem.load_byte(st, o, (), cx.eoff + i * cx.esz + cx.foff('valid'))) for i in range(cx.cap)]
+        bad = [i for i, b in enumerate(vs) if b != ZERO]
+        rep.check(not bad, 'R16.create', 'entries', 'a freshly created table is not the empty table: the valid flag of %d slot(s) (first: slot %d) keeps what the allocator returned: '
+                  'ghost sessions are found, counted out of step, refreshed instead of created' % (len(bad), bad[0] if bad else 0),
+                  function='session_table_create', file=fnf, sample={'fresh_table_slots_invalid': len(vs)})
+        cnt = st.canon(mem.load_scalar(st, o, C(cx.toff('count')), cx.ty('unsigned char')))
+        flg = st.canon(mem.load_scalar(st, o, C(cx.toff('all_complete')), cx.ty('unsigned char')))
+        rep.check(cnt == ZERO, 'R16.create', 'count', 'a freshly created table has count %s' % short(cnt), function='session_table_create', file=fnf)
+        rep.check(flg == ONE, 'R16.create', 'flag', "a freshly created table has 'all complete' = %s" % short(flg), function='session_table_create', file=fnf)
+    rep.check(nmade > 0, 'R16.create', 'paths', 'create never returns a table', function='session_table_create', file=fnf)
+
 
 def check_find(rep, cx, rule):
     """The lookup returns an entry only if it is valid and address + generation are equal, and NULL only if no entry is.
